@@ -207,7 +207,11 @@ def rule_list_emptied(ctx):
         if not t:
             continue
         s = expr_str(end, t.get("lc", t.get("c")))
-        if "GetHead()" in s and "IsNotNullChunk" in s and any(end.nblock[d["i"]] in body for d in dels):
+        # `while ((pc = Chunk::GetHead())->IsNotNullChunk())` or `for (pc = GetHead(); pc->IsNotNullChunk(); pc = GetHead())`:
+        # the cursor is (re)loaded from the head of the list on every round
+        heads = [x for x in end.all_nodes() if x["k"] == "asg" and expr_str(end, x["a"][0]) == "pc" and end.nblock[x["i"]] in body]
+        from_head = ("GetHead()" in s) or (heads and all("GetHead()" in expr_str(end, x["a"][1]) for x in heads))
+        if from_head and "IsNotNullChunk" in s and any(end.nblock[d["i"]] in body for d in dels):
             # loop exit only through the head condition: no break
             exits = set(x for b in body for x in end.succ[b] if x >= 0 and x not in body)
             ok = len(exits) == 1 and end.dominates_block(h, next(iter(exits)))
@@ -306,7 +310,7 @@ def rule_qt_restore(ctx):
     end = db.fn("uncrustify_end", file=UNC)
     calls = db.calls_in(end, "restore_options_for_QT")
     cs = [(expr_str(end, cn), pol) for cn, pol in end.guard_conds(end.nblock[calls[0]["i"]]) if cn is not None] if calls else []
-    ok = len(calls) == 1 and ("QT_SIGNAL_SLOT_found", True) in cs and all(c == ("QT_SIGNAL_SLOT_found", True) or ("GetHead()" in c[0] and c[1] is False) for c in cs)
+    ok = len(calls) == 1 and ("QT_SIGNAL_SLOT_found", True) in cs and all(c == ("QT_SIGNAL_SLOT_found", True) or (c[0].endswith("IsNotNullChunk()") and c[1] is False) for c in cs)
     r.check(ok, "uncrustify_end/restores-pending-override", db.loc(end, calls[0] if calls else end.l0),
             "uncrustify_end() does not call restore_options_for_QT() under exactly `if (QT_SIGNAL_SLOT_found)`: an unclosed SIGNAL/SLOT override leaks into the next file")
     r.floor(8)
